@@ -84,6 +84,8 @@ type Ctx struct {
 	inputs  []string
 	notes   map[string]bool // abstraction notes
 	kindCnt map[string]int
+	weak        map[int]bool // items that are only included in the second solving attempt (expensive facts)
+	onHavoc     func(st *State) // re-assume rely predicates after unknown code ran
 	inlineDepth int      // >0 while evaluating under a quantifier: no global definitions
 	qfacts      *[]Term  // collects facts while under a quantifier
 }
@@ -161,6 +163,23 @@ func (c *Ctx) fact(t Term) {
 	c.items = append(c.items, "(assert "+t+")")
 }
 
+// weakFact adds a ground fact that is sound but expensive for the solvers; it is left out of the
+// first solving attempt and included when that attempt does not discharge the obligation.
+func (c *Ctx) weakFact(t Term) {
+	if t == "true" || c.facts[t] {
+		return
+	}
+	if c.qfacts != nil {
+		return
+	}
+	c.facts[t] = true
+	if c.weak == nil {
+		c.weak = map[int]bool{}
+	}
+	c.weak[len(c.items)] = true
+	c.items = append(c.items, "(assert "+t+")")
+}
+
 func (c *Ctx) note(s string) { c.notes[s] = true }
 
 func (c *Ctx) oblige(kind, desc, pos string, props []string, reach, cond Term) *Obligation {
@@ -182,10 +201,15 @@ func (c *Ctx) obligeX(kind, desc, pos string, props []string, reach, cond Term, 
 	return o
 }
 
-func (c *Ctx) script(o *Obligation) string {
+func (c *Ctx) script(o *Obligation) string { return c.scriptW(o, true) }
+
+func (c *Ctx) scriptW(o *Obligation, withWeak bool) string {
 	var b bytes.Buffer
 	b.WriteString(prelude)
-	for _, it := range c.items[:o.prefix] {
+	for i, it := range c.items[:o.prefix] {
+		if !withWeak && c.weak[i] {
+			continue
+		}
 		b.WriteString(it)
 		b.WriteByte('\n')
 	}
@@ -404,35 +428,57 @@ var fileMu sync.Mutex
 
 func solveOne(c *Ctx, o *Obligation, dir string, timeout int, stats *solveStats) {
 	script := c.script(o)
+	light := c.scriptW(o, false)
 	o.Bytes = len(script)
 	fileMu.Lock()
 	fileSeq++
 	seq := fileSeq
 	fileMu.Unlock()
 	file := filepath.Join(dir, fmt.Sprintf("o%d.smt2", seq))
+	fileL := filepath.Join(dir, fmt.Sprintf("o%dl.smt2", seq))
 	if err := os.WriteFile(file, []byte(script), 0o644); err != nil {
 		o.Status = "error"
 		o.Raw = err.Error()
 		return
 	}
+	os.WriteFile(fileL, []byte(light), 0o644)
 	defer os.Remove(file)
+	defer os.Remove(fileL)
 	bg := context.Background()
-	// stage 1: fast attempt with the newest z3
+	// stage 1: fast attempt with the newest z3, without the expensive (weak) facts
 	quick := 2
 	if timeout < quick {
 		quick = timeout
 	}
-	r := runSolver(bg, solvers[0], file, quick)
+	hasWeak := len(light) != len(script)
+	r := runSolver(bg, solvers[0], fileL, quick)
 	total := r.secs
+	if r.status == "sat" && hasWeak {
+		// a model without the weak facts is not a counterexample
+		r.status = "unknown"
+	}
 	if r.status != "unsat" && r.status != "sat" {
-		// stage 2: race all solvers
+		// stage 2: race all solvers on the full script (and on the light one when it differs)
 		ctx, cancel := context.WithCancel(bg)
-		ch := make(chan solveOut, len(solvers))
+		n := len(solvers)
+		if hasWeak {
+			n *= 2
+		}
+		ch := make(chan solveOut, n)
 		for _, sp := range solvers {
 			go func(sp solverSpec) { ch <- runSolver(ctx, sp, file, timeout) }(sp)
+			if hasWeak {
+				go func(sp solverSpec) {
+					x := runSolver(ctx, sp, fileL, timeout)
+					if x.status == "sat" {
+						x.status = "unknown"
+					}
+					ch <- x
+				}(sp)
+			}
 		}
 		best := r
-		for range solvers {
+		for i := 0; i < n; i++ {
 			x := <-ch
 			total += x.secs
 			if x.status == "unsat" {
